@@ -156,6 +156,7 @@ def c05(run):
         run.broke('harness build', o[-1500:])
     else:
         D.correspond(run, 'alg', [])
+        D.correspond(run, 'objhist', [], reference_theorem='C05_history_* (model of one message object over a history of calls and field edits)')
         D.oracle(run, 'reuse', [])
     run.cov['rule'] = ('5 single-key kinds x produce/consume x (header alg, key alg) over the 24 registered algorithms incl. pairs sharing key material x 11 header representations '
                        '(int, int64, uint64, key.Alg, int32, text, null, float, bytes, out-of-range, bool) x headers present/absent/nil; COSE_Sign with 1-3 signers and verifiers by kid; '
@@ -352,6 +353,7 @@ def c09(run):
         D.correspond(run, 'keyset', [], reference_theorem='C09_keyset_roundtrip (model of the CBOR form of key.KeySet)')
         D.correspond(run, 'text', [], reference_theorem='C09_bytestr_text_roundtrip / C09_bytestr_json_roundtrip / C09_cosemap_*_as_cbor (model of the text and JSON forms)')
         D.correspond(run, 'msg', [], reference_theorem='C09_reencode_* (model of MarshalCBOR after UnmarshalCBOR)')
+        D.correspond(run, 'objhist', [], reference_theorem='C09_consume_keeps_the_encoding (model of one message object over a history)')
         D.correspond(run, 'msgparts', [], reference_theorem='C09_decode_encode / C09_struct_members_roundtrip (header maps, recipients, KDF contexts)')
         D.oracle(run, 'values', [])
         D.oracle(run, 'realseq', [])
@@ -372,6 +374,7 @@ def c01(run):
         run.broke('harness build', o[-1500:])
     else:
         D.correspond(run, 'msg', [], reference_theorem='C01_*_roundtrip (model of produce and consume)')
+        D.correspond(run, 'objhist', [], reference_theorem='C01_object_*_is_functional (model of one message object over a history)')
         D.oracle(run, 'msgreal', [])
         D.oracle(run, 'realseq', [])
     run.cov['rule'] = ('6 kinds x fake keys (alg / kid / Base IV variants) x header maps (int / text labels of several Go integer types; int, bstr, tstr, bool, array, nested-map values) x payload kinds (nil, empty, bytes 1..70000 crossing every length-head class, RawMessage, typed) x external data (nil, empty, up to 256 bytes) x 0..3 recipients with one nesting level / 0..4 signers, consumed tagged, untagged and CWT-tagged; '
